@@ -1,27 +1,32 @@
 #!/usr/bin/env python3
-"""tools/c06_switch.py snapshot|repaired [commit]
+"""tools/c06_switch.py fallback|arity snapshot|repaired [commit]
 
-Keeps the two hand-maintained places of the C06 check consistent with the tree in /repo:
-  snapshot   /repo's _handle_fn_body still ends with the "return the last assigned variable" fallback (the state
-             before fixes/C06-no-return-no-expression.diff): coq/fnsym/ExpectedFacts.v expects FbLastAssigned and a
-             wrong expression caused by a nested call that falls off its end is the recorded finding
-             C06 fallthrough-callee-compared (witness harness/c06_corpus.py::compares_none, replayed on every run);
-  repaired   the diff is applied (`fix:` commit <commit>): ExpectedFacts.v expects FbRaise, the finding moves to
-             "fixed" (it suppresses nothing any more: the harness excuses the shape only while the finding is recorded
-             AND the extracted fact is FbLastAssigned).
+Keeps the hand-maintained places of the C06 check consistent with the tree in /repo.  Two independent switches
+(coq/fnsym/ExpectedFacts.v), each with a recorded finding and a proposed repair:
+
+  fallback   fixes/C06-no-return-no-expression.diff  (C06_expected_fallback: FbLastAssigned -> FbRaise;
+             finding fallthrough-callee-compared, witness harness/c06_corpus.py::compares_none)
+  arity      fixes/C06-empty-call-arity.diff         (C06_expected_arity: ArityStrictNonEmpty -> ArityStrict;
+             finding zero-arg-call-of-defaulted-helper, witness harness/c06_corpus.py::caller0)
+
+  snapshot   /repo does not have the diff: ExpectedFacts.v expects the shipped value, the finding is recorded (its
+             witness is replayed on every run and reported as KNOWN-FINDING);
+  repaired   the diff is applied (`fix:` commit <commit>): ExpectedFacts.v expects the repaired value, the finding moves
+             to "fixed" (it suppresses nothing any more; its witness becomes an ordinary corpus witness).
 Then runs tools/mkmanifest.py.  Never run it while a ./check C06 is running."""
 import json, re, subprocess, sys
 from pathlib import Path
 
 V = Path(__file__).resolve().parent.parent
-mode = sys.argv[1] if len(sys.argv) > 1 else ""
-if mode not in ("snapshot", "repaired"):
+which = sys.argv[1] if len(sys.argv) > 1 else ""
+mode = sys.argv[2] if len(sys.argv) > 2 else ""
+if which not in ("fallback", "arity") or mode not in ("snapshot", "repaired"):
     sys.exit(__doc__)
-commit = sys.argv[2] if len(sys.argv) > 2 else "<commit-to-be-filled>"
-FID = "fallthrough-callee-compared"
-FINDING = {
+commit = sys.argv[3] if len(sys.argv) > 3 else "<commit-to-be-filled>"
+FB_ID = "fallthrough-callee-compared"
+FB_FINDING = {
     "property": "C06",
-    "id": FID,
+    "id": FB_ID,
     "call_site": "src/mxlpy/meta/source_tools.py::_handle_fn_body, the fallback after the loop (`for node in reversed(body): ... return ctx.symbols[target_name]`)",
     "guard": "at the evaluation point a NESTED call of the real function returns None (the callee falls off its end after an assignment) and CPython lets that None "
              "flow on (== / != against a number is False / True); the check attributes a wrong expression to this finding only when the exact twin of the function, "
@@ -32,16 +37,40 @@ FINDING = {
     "what_fails": "a helper that falls off its end returns None in Python but is translated as its last assigned variable; a caller that compares the helper's result with == / != "
                   "has a value in Python (None == b is False) while the translated caller takes the other branch (demo findings/c06_fallthrough_callee.py). Proposed repair "
                   "fixes/C06-no-return-no-expression.diff (drop the fallback: a body that falls off its end raises the existing ValueError, so the helper and its callers are refused; "
-                  "full suite unchanged: 1378 passed / 761 failed as at baseline): recorded until the lead applies it, then `python3 tools/c06_switch.py repaired <commit>`.",
+                  "full suite unchanged: 1378 passed / 761 failed as at baseline): recorded until the lead applies it, then `python3 tools/c06_switch.py fallback repaired <commit>`.",
 }
-FIXED = (f"fixed: property=C06 {commit} a function that falls off its end (returns None) was translated as its last assigned variable, so a caller comparing its result with == / != "
+FB_FIXED = (f"fixed: property=C06 {commit} a function that falls off its end (returns None) was translated as its last assigned variable, so a caller comparing its result with == / != "
          "got a wrong expression (compares_none: python 3, expression 6 at a = b = 3); the fallback is gone, such bodies are refused "
-         "(fixes/C06-no-return-no-expression.diff; demo findings/c06_fallthrough_callee.py) (id " + FID + ")")
+         "(fixes/C06-no-return-no-expression.diff; demo findings/c06_fallthrough_callee.py) (id " + FB_ID + ")")
+
+AR_ID = "zero-arg-call-of-defaulted-helper"
+AR_FINDING = {
+    "property": "C06",
+    "id": AR_ID,
+    "call_site": "src/mxlpy/meta/source_tools.py::fn_to_sympy, `if model_args is not None and len(model_args):` in front of the strict zip (reached from _handle_call with model_args = [])",
+    "guard": "a nested call WITHOUT arguments of a helper that has parameters, all of them defaulted (`allopt()` with `def allopt(n=2.0)`); the complement of the hypothesis arity_ok "
+             "(no definition has all its parameters defaulted) of C06_sound / C06_sound_unrenamed for the shipped arity rule. The generator never produces this call shape; the witness is replayed on every run.",
+    "witness": {"function": "harness/c06_corpus.py::caller0  (def allopt(n=2.0): return n * 3   /   def caller0(a): return a + allopt())",
+                "model_args": None, "point": {"a": 3}, "python_value": 9, "expression": "a + 3.0*n", "expression_value": None},
+    "what_fails": "the strict zip that refuses every other arity mismatch (a call relying on a default value is untranslatable) is skipped for an empty argument list, so the helper's "
+                  "parameter stays in the caller's expression as a free symbol: the default is lost and a model component of the same name silently takes its place (Coq: C06_empty_call_refuted; "
+                  "demo findings/c06_empty_call_defaults.py). Proposed repair fixes/C06-empty-call-arity.diff (`if model_args is not None:` -- the empty list is zipped strictly too; "
+                  "full suite unchanged: 1378 passed / 761 failed as at baseline): recorded until the lead applies it, then `python3 tools/c06_switch.py arity repaired <commit>`.",
+}
+AR_FIXED = (f"fixed: property=C06 {commit} a nested call without arguments of a helper whose parameters all have defaults skipped the strict zip and left the helper's parameter as a free symbol "
+            "(caller0: a + 3.0*n, python 7 at a = 1); the empty argument list is now zipped strictly, such calls are refused like every other call relying on a default "
+            "(fixes/C06-empty-call-arity.diff; demo findings/c06_empty_call_defaults.py) (id " + AR_ID + ")")
+
+FID, FINDING, FIXED = (FB_ID, FB_FINDING, FB_FIXED) if which == "fallback" else (AR_ID, AR_FINDING, AR_FIXED)
 
 ef = V / "coq/fnsym/ExpectedFacts.v"
 text = ef.read_text()
-want = "FbLastAssigned" if mode == "snapshot" else "FbRaise"
-new = re.sub(r"(Definition C06_expected_fallback : fb_mode := )\w+\.", rf"\g<1>{want}.", text)
+if which == "fallback":
+    want = "FbLastAssigned" if mode == "snapshot" else "FbRaise"
+    new = re.sub(r"(Definition C06_expected_fallback : fb_mode := )\w+\.", rf"\g<1>{want}.", text)
+else:
+    want = "ArityStrictNonEmpty" if mode == "snapshot" else "ArityStrict"
+    new = re.sub(r"(Definition C06_expected_arity : arity_mode := )\w+\.", rf"\g<1>{want}.", text)
 if new != text:
     ef.write_text(new)
 kfp = V / "known_findings.d/C06.json"
@@ -54,10 +83,13 @@ else:
     kf["fixed"].append(FIXED)
 kfp.write_text(json.dumps(kf, indent=1) + "\n")
 # the sentence of the manifest note that states the switch position
-SNAP_NOTE = "Current switch position: coq/fnsym/ExpectedFacts.v = FbLastAssigned (the tree still has the 'last assigned variable' fallback of _handle_fn_body): a helper that falls off its end (returns None) is translated as that variable, and a caller comparing its result with == / != gets a wrong expression -- recorded finding fallthrough-callee-compared with proposed repair fixes/C06-no-return-no-expression.diff (after applying: tools/c06_switch.py repaired <commit>); the Coq semantics gives a call without value no value, so the theorems make no claim there and the oracle attributes such an alarm to the finding only when the real function, re-run with nested calls wrapped, sees a None returned. "
-REP_NOTE = "Current switch position: coq/fnsym/ExpectedFacts.v = FbRaise (fixes/C06-no-return-no-expression.diff is applied: a body that falls off its end is refused; the earlier 'last assigned variable' fallback, which translated a None-returning helper as that variable, is a fixed defect and a return to it breaks C06_facts_pinned and is found by the corpus witness compares_none). "
+FB_SNAP = "Current switch position: coq/fnsym/ExpectedFacts.v = FbLastAssigned (the tree still has the 'last assigned variable' fallback of _handle_fn_body): a helper that falls off its end (returns None) is translated as that variable, and a caller comparing its result with == / != gets a wrong expression -- recorded finding fallthrough-callee-compared with proposed repair fixes/C06-no-return-no-expression.diff (after applying: tools/c06_switch.py fallback repaired <commit>); the Coq semantics gives a call without value no value, so the theorems make no claim there and the oracle attributes such an alarm to the finding only when the real function, re-run with nested calls wrapped, sees a None returned. "
+FB_REP = "Current switch position: coq/fnsym/ExpectedFacts.v = FbRaise (fixes/C06-no-return-no-expression.diff is applied: a body that falls off its end is refused; the earlier 'last assigned variable' fallback, which translated a None-returning helper as that variable, is a fixed defect and a return to it breaks C06_facts_pinned and is found by the corpus witness compares_none). "
 mp = V / "tools/manifest_src.d/C06.json"
 man = json.loads(mp.read_text())
+AR_SNAP = "Second switch: ExpectedFacts.v = ArityStrictNonEmpty (the tree guards the strict zip of fn_to_sympy with `len(model_args)`): the soundness theorems carry the hypothesis arity_ok = 'no definition has ALL its parameters defaulted'; its complement -- `helper()` of such a helper leaves the parameter as a free symbol -- is the recorded finding zero-arg-call-of-defaulted-helper (C06_empty_call_refuted) with proposed repair fixes/C06-empty-call-arity.diff (after applying: tools/c06_switch.py arity repaired <commit>). "
+AR_REP = "Second switch: ExpectedFacts.v = ArityStrict (fixes/C06-empty-call-arity.diff is applied: every argument list, the empty one included, is zipped strictly against the parameters): arity_ok is True, the soundness theorems hold without a guard on default arguments; the earlier `len(model_args)` guard is a fixed defect (C06_empty_call_refuted) and a return to it breaks C06_facts_pinned and is found by the corpus witness caller0. "
+SNAP_NOTE, REP_NOTE = (FB_SNAP, FB_REP) if which == "fallback" else (AR_SNAP, AR_REP)
 man["note"] = man["note"].replace(SNAP_NOTE, "@@POS@@").replace(REP_NOTE, "@@POS@@").replace("@@POS@@", SNAP_NOTE if mode == "snapshot" else REP_NOTE)
 mp.write_text(json.dumps(man, indent=1))
 subprocess.run([sys.executable, str(V / "tools/mkmanifest.py")], check=False)
